@@ -345,6 +345,12 @@ class Server(utils.EventEmitter):
             logger.warning('CCCD value not 2 bytes long')
             return
 
+        # The write may be processed after the connection has gone
+        connection = bearer.connection if att.is_enhanced_bearer(bearer) else bearer
+        if self.device.connections.get(connection.handle) is not connection:
+            logger.debug('connection closed, ignoring subscription update')
+            return
+
         cccds = self.subscribers.setdefault(bearer, {})
         cccds[characteristic.handle] = value
         logger.debug(f'CCCDs: {cccds}')
